@@ -84,11 +84,13 @@ STARVED_S = 180.0       # wall cap: inconclusive
 
 
 class Driver:
-    def __init__(self, binpath, stderr_path=None):
+    def __init__(self, binpath, stderr_path=None, env_extra=None, wrapper=None):
         env = dict(os.environ, MASSCANNED_VERIF_DRIVER="1")
         env.pop("RUST_BACKTRACE", None)
+        if env_extra:
+            env.update(env_extra)
         self._err = open(stderr_path or os.devnull, "wb")
-        self.p = subprocess.Popen([binpath], stdin=subprocess.PIPE, stdout=subprocess.PIPE, stderr=self._err,
+        self.p = subprocess.Popen((wrapper or []) + [binpath], stdin=subprocess.PIPE, stdout=subprocess.PIPE, stderr=self._err,
                                   env=env, bufsize=0)
         self.fd = self.p.stdout.fileno()
         self.buf = bytearray()
